@@ -353,6 +353,13 @@ func checkC17(c *Check) {
 			}
 			if okW && okO && isRenderPtr {
 				okMap = true
+				// on every path: a Renderer that steps aside for some requests (something is mapped already, a
+				// method, a header) leaves later handlers without the render configured here
+				if x, path := (Query{Fn: l, Avoid: isInstr(ci)}).FromEntry(isReturn); x != nil {
+					c.Bad(p.FuncKey(rn)+":maps-render:always", p.Pos(ci.Pos()), "Renderer's handler can return without mapping its render: handlers after it get no Render, or the one an earlier Renderer configured with other options", blockPath(path))
+				} else {
+					c.OK(p.FuncKey(rn)+":maps-render:always", p.Pos(ci.Pos()), "every path through the handler maps the render", numInstrs(l))
+				}
 			}
 		}
 	}
